@@ -162,6 +162,22 @@ def snapshot(root):
     return out
 
 
+def sv_blocks(text):
+    """top-level blocks of an emitted file, sorted (same rule as the harness)"""
+    if text is None:
+        return None
+    out, cur = [], ""
+    for line in text.splitlines():
+        cur += line + "\n"
+        t = line.lstrip()
+        if t.startswith("endmodule") or t.startswith("endpackage") or t.startswith("endinterface"):
+            out.append(cur)
+            cur = ""
+    if cur.strip():
+        out.append(cur)
+    return sorted(out)
+
+
 def cli_project(root, files, names=None):
     shutil.rmtree(root, ignore_errors=True)
     os.makedirs(os.path.join(root, "src"))
@@ -219,6 +235,13 @@ def cli_part(res, rng, tier, veryl):
                 res.count("cli_builds", 1)
             if outs[0] != outs[1]:
                 diff = [i for i in range(n) if outs[0][1].get(i) != outs[1][1].get(i)]
+                if outs[0][0] == outs[1][0] and all(sv_blocks(outs[0][1].get(i)) == sv_blocks(outs[1][1].get(i)) for i in diff):
+                    res.hist("cli", "known:generic-instance-emission-order")
+                    res.violation("order:generic-instance-emission-order",
+                                  "CLI: copies of a generic package/module are emitted in an order that follows the processing order of the using files",
+                                  {"files": p.wire(), "differing_files": diff})
+                    n_ok += 1
+                    continue
                 res.violation("cli-order", "the CLI emits different SystemVerilog when the files are processed in reverse order (files %s)" % diff,
                               {"files": p.wire(), "differing_files": diff})
                 continue
@@ -235,6 +258,14 @@ def run(tier, seed, replay):
         "models coq/Codec/Fragment.v + coq/Codec/Order.v (analyze = fold of pass1 over id-closed contributions)",
         "vh-frag harness `order`: in-process pipeline mirroring crates/veryl/src/pipeline.rs::analyze and the emit loop of cmd_build.rs",
         "the real CLI built from the working tree (C.cli_build)"])
+    res.coverage["explanation"] = (
+        "Partial proof + oracle. Coq (Props/C24.v): on the abstract analyzer (ids allocated in processing order, id-closed pass-1 "
+        "contributions) any two processing orders give states equal up to a permutation of id blocks and of table entries, so "
+        "every output invariant under these is order independent; first-definition-wins resolution is order independent iff no "
+        "name is defined twice. Not proved: that the real emitter/diagnostics are such outputs. Oracle: the real pipeline is run "
+        "in-process on generated error-free multi-file projects in all (<=4/5 files) or random permutations and id offsets, in two "
+        "fresh sets of processes, and through the real CLI (two clean builds, reversed file order); emitted SV, source maps, "
+        "diagnostic sets and filelists are compared byte for byte.")
     res.assumptions = [
         "id_invariant out: the output does not depend on id values up to block renamings nor on table insertion order — "
         "NOT proved for the real emitter/diagnostics; tested by the permutation oracle",
@@ -272,7 +303,7 @@ def run(tier, seed, replay):
     results = run_order(binary, cases)
     # the same cases in a second, fresh set of processes: digests must agree (RandomState-seeded maps differ per process)
     results2 = run_order(binary, cases, nshards=max(1, min(C.NCPU, len(cases)) - 1))
-    n_same = n_err = runs = 0
+    n_same = n_err = runs = n_known = 0
     bad = []
     for c, r, r2 in zip(cases, results, results2):
         v = r.get("verdict")
@@ -289,6 +320,11 @@ def run(tier, seed, replay):
             if r2.get("verdict") == "same" and r2.get("digest") != r.get("digest") and r["errors"] == 0:
                 bad.append((c, {"verdict": "diff", "what": "fresh-process", "digest1": r.get("digest"), "digest2": r2.get("digest")}))
         elif v in ("diff", "panic", "crash"):
+            if v == "diff" and str(r.get("what", "")).startswith("known:"):
+                runs += r.get("orders", 0)
+                n_known += 1
+                if r2.get("digest") != r.get("digest") and r.get("errors", 0) == 0 and r2.get("verdict") == "diff":
+                    bad.append((c, {"verdict": "diff", "what": "fresh-process", "digest1": r.get("digest"), "digest2": r2.get("digest")}))
             bad.append((c, r))
     res.coverage["evaluations"] = runs + sum(r.get("orders", 0) for r in results2 if r.get("verdict") == "same")
     res.coverage["projects"] = len(cases)
@@ -296,11 +332,15 @@ def run(tier, seed, replay):
     res.coverage["projects_with_errors(not judged)"] = n_err
     res.coverage["distinct_nontrivial"] = n_same
     res.coverage["rule"] = "error-free generated multi-file projects (>= 2 files with cross-file references) whose every tried order gave identical outputs"
-    res.obligation("in-process pipeline: outputs identical across %d pipeline runs (all/random permutations, id offsets) of %d projects" % (runs, len(cases)),
-                   not bad, "" if not bad else json.dumps(bad[0][1])[:300])
-    res.obligation("coverage: >= 60%% of the generated projects are error free and were compared", n_same * 10 >= len(cases) * 6,
-                   "%d of %d" % (n_same, len(cases)))
-    if n_same * 10 < len(cases) * 6 and not bad:
+    new_bad = [b for b in bad if not (str(b[1].get("what", "")).startswith("known:")
+                                      and "order:" + str(b[1].get("what"))[len("known:"):] in res.known)]
+    res.coverage["projects_differing_only_by_a_listed_known_finding"] = n_known
+    res.obligation("in-process pipeline: outputs identical across %d pipeline runs (all/random permutations, id offsets) of %d projects "
+                   "(%d differ only by a listed known finding)" % (runs, len(cases), n_known),
+                   not new_bad, "" if not new_bad else json.dumps(new_bad[0][1])[:300])
+    res.obligation("coverage: >= 60%% of the generated projects are error free and were compared", (n_same + n_known) * 10 >= len(cases) * 6,
+                   "%d of %d" % (n_same + n_known, len(cases)))
+    if (n_same + n_known) * 10 < len(cases) * 6 and not bad:
         res.violation("coverage", "only %d of %d generated projects were error free" % (n_same, len(cases)),
                       {"no_longer_checks": "permutation oracle", "verdicts": res.coverage.get("verdicts")}, no_input=True)
     for c, r in zip(cases[:3], results[:3]):
@@ -309,7 +349,7 @@ def run(tier, seed, replay):
     seen = set()
     for c, r in bad:
         what = str(r.get("what", r.get("verdict")))
-        key = "order:" + what.split(":")[0]
+        key = "order:" + (what[len("known:"):] if what.startswith("known:") else what.split(":")[0])
         if key in seen:
             continue
         seen.add(key)
